@@ -76,6 +76,43 @@ func (r *runner) executeFree(client string, seed int64) (ex execution) {
 		nextId int
 	)
 	doOp := func(actor string, o op, variant int) {
+		if o.Op == "fill" {
+			// ballast: o.C writes of keys nobody reads, inside transaction o.T (it makes the transaction's store large;
+			// the history does not mention them and the programs roll such a transaction back)
+			for i := 0; i < o.C; i++ {
+				if err := store(o.T).Set(bg, fmt.Sprintf("ballast-%d-%d", o.T, i), []byte{byte(i)}); err != nil {
+					logMu.Lock()
+					ex.Outcome, ex.Detail = "error", "ballast write: "+err.Error()
+					logMu.Unlock()
+					return
+				}
+			}
+			return
+		}
+		if o.Op == "churn" {
+			// load with an oracle of its own: o.C small transactions that write a private key, read it back and roll back.
+			// "A transaction reads its own last write" needs no linearisation; the history does not mention these calls.
+			for i := 0; i < o.C; i++ {
+				tx, err := db.Begin(bg, fs_db.IsoLevelReadCommitted)
+				if err != nil {
+					continue
+				}
+				k, v := "churn-"+actor, []byte(fmt.Sprintf("%s-%d", actor, i))
+				sErr := tx.Set(bg, k, v)
+				b, gErr := tx.Get(bg, k)
+				tx.Rollback(bg)
+				if sErr == nil && (gErr != nil || string(b) != string(v)) {
+					logMu.Lock()
+					if ex.Outcome == "ok" {
+						ex.Outcome = "panic" // reported like a crash of the real code: no schedule explains it
+						ex.Detail = fmt.Sprintf("a transaction wrote %q to its private key %q and read back %q, %v (round %d of actor %s)", v, k, b, gErr, i, actor)
+					}
+					logMu.Unlock()
+					return
+				}
+			}
+			return
+		}
 		logMu.Lock()
 		nextId++
 		id := nextId
